@@ -1029,7 +1029,7 @@ void emitRadial(vh::Sink& sink, vh::Rng& r, int maxn) {
     sink.count("radial"); sink.count(gu < 0 ? "radial.nogridunit" : "radial.gridunit"); sink.count("radial.cells", (long) vols.size());
 }
 
-void emitGridunit(vh::Sink& sink, vh::Rng& r, int maxn) {
+void emitGridunit(vh::Sink& sink, vh::Rng& r, int maxn, const std::string& tmp, long& fileNo) {
     CP cp = genHardCP(r, maxn);
     const int unit = r.range(0, 2), gu = r.range(0, 2);
     Deck deck = parse(deckHead(cp.nx, cp.ny, cp.nz, unit) + kwData("COORD", cp.coord) + kwData("ZCORN", cp.zcorn) + kwInt("ACTNUM", cp.actnum)
@@ -1045,6 +1045,12 @@ void emitGridunit(vh::Sink& sink, vh::Rng& r, int maxn) {
     }
     sink.count("gridunit"); sink.count(gu == unit ? "gridunit.same" : "gridunit.other");
     emitCells(sink, g, "hardcp.gridunit");
+    {   // save() of a GRIDUNIT grid writes the rescaled *input* arrays (m_input_coord / m_input_zcorn)
+        V ci = deck["COORD"].back().getSIDoubleData(), zi = deck["ZCORN"].back().getSIDoubleData();
+        if (gu != unit) { const double sc = lengthSI(gu) / lengthSI(unit); for (auto& x : ci) x = x * sc; for (auto& x : zi) x = x * sc; }
+        emitEgrid(sink, r, g, ci, zi, tmp, fileNo, "-", "-");
+        sink.count("gridunit.egrid");
+    }
     sink.emit("grid.act " + joinI(cp.actnum), std::to_string(g.getNumActive()) + "|" + g2aStr(g) + "|" + (g.getActiveMap().empty() ? "" : joinI(g.getActiveMap())));
 }
 
@@ -1132,6 +1138,28 @@ void propMinpv(vh::PropLog& log, std::map<std::string, long>& st, vh::Rng& r, in
             else if (gapDefault ? !(g.getPinchMaxEmptyGap() >= 1e19) : !close(g.getPinchMaxEmptyGap(), pgap * L, 1e-14)) { ok = false; why = "PINCH item 3 (max empty gap) " + num(g.getPinchMaxEmptyGap()); }
         }
         if (ok && !withPinch && (g.getPinchGapMode() != PinchMode::GAP || g.getPinchOption() != PinchMode::TOPBOT || g.getMultzOption() != PinchMode::TOP)) { ok = false; why = "PINCH defaults"; }
+        // the rule, cell by cell, thresholds hit exactly / one ulp below / above; evaluated on the state
+        // the deck gives and again after setMINPVV
+        std::vector<int> mask(n);
+        long removed = 0;
+        auto checkRule = [&]() {
+            const V vec = g.getMinpvVector();
+            const bool inUse = g.getMinpvMode() != MinpvMode::Inactive;
+            removed = 0;
+            for (int gi = 0; gi < n && ok; ++gi) {
+                const int c = r.range(0, 5);
+                const double m = vec[gi];
+                const double p = c == 0 ? m : c == 1 ? std::nextafter(m, -1.0) : c == 2 ? std::nextafter(m, 1e300) : c == 3 ? 0.0 : rlen(r, 0, 6000);
+                auto ijk = g.getIJK(gi);
+                const bool a = g.cellActiveAfterMINPV(ijk[0], ijk[1], ijk[2], p);
+                const bool expect = act[gi] > 0 && (!inUse || p >= m);
+                if (a != expect) { ok = false; why = "cellActiveAfterMINPV(g=" + std::to_string(gi) + ", porv=" + num(p) + ") = " + std::to_string(a) + " with ACTNUM=" + std::to_string(act[gi]) + " minpv=" + num(m) + (inUse ? " (in use)" : " (not in use)"); }
+                mask[gi] = a ? act[gi] : 0;
+                removed += act[gi] > 0 && !a;
+                st[inUse ? "minpv.inuse.inactive_cells" : "minpv.unused.inactive_cells"] += act[gi] <= 0;
+            }
+        };
+        if (ok) checkRule();
         // setMINPVV
         if (ok && r.coin()) {
             V bad(n + 1, 1.0);
@@ -1143,23 +1171,10 @@ void propMinpv(vh::PropLog& log, std::map<std::string, long>& st, vh::Rng& r, in
             V mv(n); for (auto& x : mv) x = r.coin(1, 6) ? 0.0 : rlen(r, 1, 5000);
             if (ok) { g.setMINPVV(mv); if (g.getMinpvVector() != mv || g.getMinpvMode() != MinpvMode::EclSTD) { ok = false; why = "setMINPVV did not install the vector"; } }
             st["minpv.setMINPVV"]++;
+            if (ok) checkRule();
         }
-        // the rule, cell by cell, thresholds hit exactly / one ulp below / above
         const V vec = g.getMinpvVector();
         const bool inUse = g.getMinpvMode() != MinpvMode::Inactive;
-        std::vector<int> mask(n);
-        long removed = 0;
-        for (int gi = 0; gi < n && ok; ++gi) {
-            const int c = r.range(0, 5);
-            const double m = vec[gi];
-            const double p = c == 0 ? m : c == 1 ? std::nextafter(m, -1.0) : c == 2 ? std::nextafter(m, 1e300) : c == 3 ? 0.0 : rlen(r, 0, 6000);
-            auto ijk = g.getIJK(gi);
-            const bool a = g.cellActiveAfterMINPV(ijk[0], ijk[1], ijk[2], p);
-            const bool expect = act[gi] > 0 && (!inUse || p >= m);
-            if (a != expect) { ok = false; why = "cellActiveAfterMINPV(g=" + std::to_string(gi) + ", porv=" + num(p) + ") = " + std::to_string(a) + " with ACTNUM=" + std::to_string(act[gi]) + " minpv=" + num(m) + (inUse ? " (in use)" : " (not in use)"); }
-            mask[gi] = a ? act[gi] : 0;
-            removed += act[gi] > 0 && !a;
-        }
         st["minpv.cells"] += n; st["minpv.removed"] += removed;
         if (ok) {
             bool threw = false;
@@ -1286,7 +1301,7 @@ void propRadial(vh::PropLog& log, std::map<std::string, long>& st, vh::Rng& r, i
 }
 
 // P10: GRIDUNIT: the same numbers under "deck unit A + GRIDUNIT B" and under "deck unit B" give the same grid
-void propGridunit(vh::PropLog& log, std::map<std::string, long>& st, vh::Rng& r, int maxn) {
+void propGridunit(vh::PropLog& log, std::map<std::string, long>& st, vh::Rng& r, int maxn, const std::string& tmp, long& fileNo) {
     const int form = r.range(0, 2);       // corner-point / DXV+TOPS / radial
     const int unit = r.range(0, 2), gu = r.range(0, 2);
     bool ok = true; std::string why;
@@ -1321,6 +1336,18 @@ void propGridunit(vh::PropLog& log, std::map<std::string, long>& st, vh::Rng& r,
             if (!close(p.thick, q.thick, 1e-9, 1e-13 * ext)) { ok = false; why = "thickness cell=" + std::to_string(gi); }
         }
         if (ok && a->getZcornFixed() != b->getZcornFixed()) { ok = false; why = "zcorn_fixed"; }
+        // the GRIDUNIT grid saved and loaded back is the same grid (single precision of the file)
+        if (ok) {
+            const int su = r.range(0, 2);
+            const std::string p1 = tmp + "/G" + std::to_string(fileNo++) + ".EGRID";
+            a->save(p1, false, {}, unitSys(su));
+            EclipseGrid h(p1);
+            const auto& c3 = h.getCOORD(); const auto& z3 = h.getZCORN();
+            if (c3.size() != c1.size() || z3.size() != z1.size()) { ok = false; why = "save/load array sizes"; }
+            for (size_t n = 0; n < c1.size() && ok; ++n) if (!close(c1[n], c3[n], 2e-7, 2e-7 * ext)) { ok = false; why = "save/load of the GRIDUNIT grid: COORD[" + std::to_string(n) + "] " + num(c1[n]) + " vs " + num(c3[n]); }
+            for (size_t n = 0; n < z1.size() && ok; ++n) if (!close(z1[n], z3[n], 2e-7, 1e-30)) { ok = false; why = "save/load of the GRIDUNIT grid: ZCORN[" + std::to_string(n) + "] " + num(z1[n]) + " vs " + num(z3[n]); }
+            if (ok && h.getACTNUM() != a->getACTNUM()) { ok = false; why = "save/load ACTNUM"; }
+        }
     } catch (const std::exception& e) { ok = false; why = "exception"; }
     if (ok) log.ok(); else log.fail("gridunit", std::string("form=") + std::to_string(form) + " deck=" + unitKw(unit) + " GRIDUNIT=" + gridUnitName(gu) + " " + why);
     st["gridunit"]++; st[std::string("gridunit.form") + std::to_string(form)]++;
@@ -1598,7 +1625,7 @@ int main(int argc, char** argv) {
             // (10) third round: MINPV rule, RADIAL grids, GRIDUNIT, MapAxes, hard corner-point grids
             for (int t = 0; t < 2; ++t) emitMinpv(sink, rng, maxn);
             for (int t = 0; t < 2; ++t) emitRadial(sink, rng, thorough ? 5 : 4);
-            emitGridunit(sink, rng, thorough ? 5 : 4);
+            emitGridunit(sink, rng, thorough ? 5 : 4, tmp, fileNo);
             emitMapaxes(sink, rng);
             emitHardCP(sink, rng, maxn, tmp, fileNo, round);
             // (8) calculateCellVol on arbitrary (twisted) hexahedra and on their k-halves
@@ -1884,7 +1911,7 @@ int main(int argc, char** argv) {
             for (int t = 0; t < n3; ++t) {
                 propMinpv(log, st, rng, thorough ? 6 : 5);
                 propRadial(log, st, rng, thorough ? 6 : 4, tmp, fileNo);
-                propGridunit(log, st, rng, thorough ? 5 : 4);
+                propGridunit(log, st, rng, thorough ? 5 : 4, tmp, fileNo);
                 propMapaxes(log, st, rng, tmp, fileNo);
                 propHardCP(log, st, rng, thorough ? 7 : 5, tmp, fileNo);
             }
